@@ -106,7 +106,8 @@ FORMS = ['contract_caps_dict_open_end', 'contract_caps_dict_with_end', 'contract
          # an optional argument omitted vs given explicitly with its documented default
          'defaults_storage', 'defaults_contract', 'defaults_transport', 'defaults_plant', 'defaults_multicommodity', 'defaults_plant_ramp_freq',
          # the forms of a rate-type parameter of an asset with its own coarser frequency (the coarse step's length scales the volume limit)
-         'coarse_contract_caps_column_vs_scalar', 'coarse_contract_caps_dict_vs_scalar']      # (plants reject an own frequency)
+         'coarse_contract_caps_column_vs_scalar', 'coarse_contract_caps_dict_vs_scalar',
+         'nodes_single_vs_list', 'window_string_dates', 'scalars_int_vs_float']      # (plants reject an own frequency)
 
 
 def build_forms(D, which):
@@ -255,6 +256,14 @@ def build_forms(D, which):
         rc_, cio_ = v('rc', lo=0), v('cio', lo=0)
         mk = lambda f: eao.assets.Plant(name='a', nodes=[nA, nG], price='p', freq='2h', min_cap=0., max_cap=3., fuel_efficiency=0.5,
                                         running_costs=col('rc', [rc_] * T) if f else rc_, consumption_if_on=col('cio', [cio_] * T) if f else cio_)
+    elif which == 'nodes_single_vs_list':
+        mk = lambda f: eao.assets.Storage('a', nodes=[nA] if f else nA, size=v('size', lo=0), cap_in=v('ci', lo=0), cap_out=v('co', lo=0), eff_in=0.75)
+    elif which == 'window_string_dates':
+        mk = lambda f: eao.assets.SimpleContract(name='a', nodes=nA, price='p', min_cap=v('lo', hi=0), max_cap=v('hi', lo=0),
+                                                 start=str(naive[1]) if f else dtm(naive[1]), end=str(naive[3]) if f else dtm(naive[3]))
+    elif which == 'scalars_int_vs_float':
+        mk = lambda f: eao.assets.Contract(name='a', nodes=nA, price='p', min_cap=-2 if f else -2.0, max_cap=3 if f else 3.0, extra_costs=1 if f else 1.0,
+                                           max_take={'start': [dtm(naive[0])], 'end': [dtm(naive[3])], 'values': [4 if f else 4.0]}, wacc=0 if f else 0.0)
     elif which == 'defaults_multicommodity':
         base_ = dict(name='a', nodes=[nA, nB], price='p', min_cap=v('lo', hi=0), max_cap=v('hi', lo=0), factors_commodities=[1.0, 0.5])
         mk = lambda f: eao.assets.MultiCommodityContract(**dict(base_, **(dict(start=None, end=None, wacc=0., extra_costs=0., min_take=None, max_take=None, freq=None, profile=None,
